@@ -98,6 +98,8 @@ def analyse(js, diags, linemap, crate):
                 name = f["function"]
                 if name.startswith(crate + "::"):
                     name = name[len(crate) + 2:]
+                # generated solver-bucket modules (jetgen._mods) are not part of an obligation's identity
+                name = re.sub(r"^(?:exec|sound|complete|table)_[a-z]+_\d+::", "", name)
                 prev = funcs.get(name)
                 ok = bool(f.get("success"))
                 if prev:
